@@ -250,7 +250,15 @@ def st_mutated():
         init = m.init_strategy()
         if kind not in ("tc", "tm"):
             init = init.map(lambda p: {**p, "conf": {**p["conf"], "crc": 1}})
-        return st.fixed_dictionaries({"kind": st.just(kind), "init": init, "steps": st.lists(step, min_size=1, max_size=5), "burst_seed": st.integers(0, 2**32 - 1)})
+        steps = st.lists(step, min_size=1, max_size=5)
+        if kind == "finished":
+            # also histories that leave the valid parameter sets and come back: fault location kept while the condition code is one that forbids it,
+            # another setter in between, then a code that admits it again
+            detour = st.tuples(st.sampled_from([0, 11]), st.lists(M.st_fsresp_tlv(8, 4), max_size=2), st.sampled_from(M.FIN_FAULT_CCS)).map(
+                lambda t: [["set_condition_code_any", t[0]], ["set_responses", t[1]], ["set_condition_code_any", t[2]]]
+            )
+            steps = st.one_of(steps, steps, detour, st.tuples(steps, detour).map(lambda t: t[0][:2] + t[1]))
+        return st.fixed_dictionaries({"kind": st.just(kind), "init": init, "steps": steps, "burst_seed": st.integers(0, 2**32 - 1)})
 
     return st.sampled_from(["tc", "tm"] + list(c11.CFDP_KINDS)).flatmap(for_kind)
 
@@ -270,9 +278,13 @@ def check_mutated(case):
     s = m.start(copy.deepcopy(case["init"]))
     for name, arg in case["steps"]:
         # pack - change - pack again: a cached trailer from an earlier pack must never survive a change
-        (s["o"] if isinstance(s, dict) else s.obj).pack()
-        m.step(s, name, arg)
+        if isinstance(s, dict) or not m.outside_domain(s):
+            (s["o"] if isinstance(s, dict) else s.obj).pack()
+        if isinstance(s, dict) or m.enabled(s, name):
+            m.step(s, name, arg)
     obj = s["o"] if isinstance(s, dict) else s.obj
+    if not isinstance(s, dict) and m.outside_domain(s):
+        return devs, 0  # the history ended on a parameter set that is not valid (fault location under a code that forbids one)
     raw = bytes(obj.pack())
     eq(devs, "mutated.trailer", raw[-2:], crc_bytes(raw[:-2]), f"{kind}: trailer after setter calls vs reference CRC of all preceding octets")
     if kind in ("tc", "tm"):
